@@ -150,7 +150,7 @@ class Prov:
                 if first in ('Dir', 'Resolved'):
                     return 'Resolved'
                 return worst([first] + [self.kind(a, qual) for a in node.args[1:]])
-            if d in ('list', 'tuple', 'sorted') and node.args:
+            if d in ('list', 'tuple', 'sorted', 'set', 'frozenset', 'reversed') and node.args:
                 return self.kind(node.args[0], qual)
             if d in ('os.path.abspath', 'os.path.normpath', 'os.path.realpath', 'str', 'os.fspath'):
                 return self.kind(node.args[0], qual) if node.args else 'Unknown'
